@@ -14,13 +14,13 @@ from pulsarbat.pulsar.phase import Phase, FractionalPhase
 from harness.common import float_lit, zlit, listlit
 
 VFILES = ['Model/Phase2.v', 'Proofs/TwoSumExact.v', 'Proofs/Floor.v', 'Proofs/DayFrac.v', 'Proofs/DayFrac3.v', 'Proofs/PhaseAdd.v',
-          'Proofs/PhaseCmp.v', 'Proofs/PhaseMore.v', 'Proofs/DayFracTail.v', 'Proofs/TwoProduct.v', 'Proofs/PhaseMul.v', 'Proofs/PhaseAbs.v', 'Proofs/DivChain.v', 'Proofs/PhaseDiv.v', 'Props/C07.v']
+          'Proofs/PhaseCmp.v', 'Proofs/PhaseMore.v', 'Proofs/DayFracTail.v', 'Proofs/TwoProduct.v', 'Proofs/PhaseMul.v', 'Proofs/PhaseAbs.v', 'Proofs/DivChain.v', 'Proofs/PhaseDiv.v', 'Model/PhaseDivmod.v', 'Props/C07.v']
 REAL_AX = {'ClassicalDedekindReals.sig_forall_dec', 'ClassicalDedekindReals.sig_not_dec',
            'FunctionalExtensionality.functional_extensionality_dep', 'Classical_Prop.classic', 'float'}
 TOL = Fr(1, 2 ** 52)
 
 HEADER = '''From Coq Require Import ZArith Bool PrimFloat List. Import ListNotations.
-From PB Require Import Model.Phase2.
+From PB Require Import Model.Phase2 Model.PhaseDivmod.
 Definition P (i f : float) (b : bool) : ph := {| p_int := i; p_frac := f; p_imag := b |}.
 Definition cmp_code (m : option bool) (impl : Z) : Z :=       (* impl: 0 False, 1 True, 2 not a bool / raised *)
   match m, impl with Some true, 1%Z => 0 | Some false, 0%Z => 0 | None, 2%Z => 0 | _, _ => 1 end%Z.
@@ -366,6 +366,10 @@ def run(ctx):
         except Exception as e:
             ctx.fail('divmod_raised', inp, impl=repr(e))
             continue
+        # (T) the statement-by-statement model of this branch, bit for bit
+        ql = 'None' if q is None else '(Some %s)' % fl(float(np.asarray(getattr(q, 'value', q))))
+        rl = 'None' if not isinstance(r, Phase) else '(Some %s)' % ph_lit(r)
+        add_item(f'chk_divmod {ph_lit(a)} {fl(d)} {ql} {rl}', inp, [ql, rl])
         ea, ed = exact(a)[0], Fr(d)
         if q is not None:
             qv = Fr(float(np.asarray(getattr(q, 'value', q))))
@@ -433,6 +437,11 @@ def run(ctx):
         if r is not None and not isinstance(r, Phase):
             ctx.fail('remainder_not_a_phase', inp, impl=type(r).__name__)
             continue
+        av = a.view(np.ndarray).reshape(-1)
+        for k in range(len(cnts)):
+            ql = 'None' if qa is None else '(Some %s)' % fl(float(qa[k]))
+            rl = 'None' if ra is None else '(Some (P %s %s false))' % (fl(ra[k]['int']), fl(ra[k]['frac']))
+            add_item(f'chk_divmod (P {fl(av[k]["int"])} {fl(av[k]["frac"])} false) {fl(d)} {ql} {rl}', dict(inp, element=k), [ql, rl])
         for k in range(len(cnts)):
             ea = Fr(cnts[k]) + Fr(frs[k])
             if qa is not None:
